@@ -47,6 +47,13 @@ def _schema_constrains_root(ctx: Ctx, mm, order, vi, vcall, vfn):
     `$ref` must name the MetaModel definition of lsp.schema.json."""
     env: dict = {}
     rets: dict = {}
+    mod_consts = {}
+    for st_ in mm.tree.body:
+        if isinstance(st_, (ast.Assign, ast.AnnAssign)) and isinstance(getattr(st_, "value", None), ast.Constant) \
+                and isinstance(st_.value.value, str):
+            for t_ in (st_.targets if isinstance(st_, ast.Assign) else [st_.target]):
+                if isinstance(t_, ast.Name):
+                    mod_consts[t_.id] = st_.value.value
 
     def strs_of(node, fn):
         out = set()
@@ -55,8 +62,12 @@ def _schema_constrains_root(ctx: Ctx, mm, order, vi, vcall, vfn):
                 out.add(n.value)
             elif isinstance(n, ast.Name):
                 v = env.get((fn.name, n.id))
+                if isinstance(v, dict) and v.get("kind") == "call":
+                    v = rets.get(v["fn"])
                 if isinstance(v, dict) and "strs" in v:
                     out |= v["strs"]
+                elif v is None and n.id in mod_consts:
+                    out.add(mod_consts[n.id])
         return out
 
     def schema_file_value():
@@ -314,11 +325,40 @@ def run(ctx: Ctx):
     ctl = mod.functions.get("convert_to_lsp_type")
     if ctl is None:
         raise AnalysisError(f"{P_MODEL}: convert_to_lsp_type not found")
+    # kind -> class: convert_to_lsp_type is evaluated (E5) once per kind of the schema's TypeKind with the model classes
+    # stubbed (a call records the class); attrs.fields(<class>).<field>.validator.options is answered from the parsed
+    # class bodies, so a table derived from the classes' own `kind` validators folds as well as a literal one
+    from ..microeval import Interp as _KI, Record as _KRec, ModuleRef as _KMod, Raised as _KRaised, ClassRef as _KCR
+
+    def _fields_stub(cref):
+        cn_ = getattr(cref, "name", None)
+        if cn_ not in classes:
+            raise _KRaised("TypeError", ("not an attrs class",))
+        out = {}
+        for fname_, mf in classes[cn_]["fields"].items():
+            opts = in_list_values(mf.validator, const_it)
+            out[fname_] = _KRec("Attribute", {"name": fname_, "validator": _KRec("Validator", {"options": opts}) if opts is not None
+                                              else None})
+        return _KRec("Fields", out)
+    kit = _KI(mod.tree, name=P_MODEL, extra_globals={"attrs": _KMod("attrs", attrs={"fields": ("host", _fields_stub)}),
+                                                      "attr": _KMod("attr", attrs={"fields": ("host", _fields_stub)})})
+    for cn_ in classes:
+        ref_ = kit.globals.get(cn_)
+        if isinstance(ref_, _KCR):
+            ref_.call = (lambda _cn: (lambda *a, **kw: _KRec(_cn, kw)))(cn_)
     lut = {}
-    for node in ast.walk(ctl):
-        if isinstance(node, ast.Dict) and node.keys and all(isinstance(k, ast.Constant) for k in node.keys):
-            for k, v in zip(node.keys, node.values):
-                lut[k.value] = dotted(v)
+    type_kinds = defs.get("TypeKind", {}).get("enum") or []
+    for k_ in type_kinds:
+        try:
+            payload = {"kind": k_, "name": "x", "value": "v", "element": None, "items": [], "key": None}
+            if ctl.args.kwarg is not None and not ctl.args.args:
+                r_ = kit.call(ctl, [], payload)
+            else:
+                r_ = kit.call(ctl, [payload])
+        except _KRaised:
+            continue
+        if isinstance(r_, _KRec):
+            lut[k_] = r_.cls_name
     ctx.floor("convert_to_lsp_type table entries", len(lut), 8)
     ctx.fn("model.py:convert_to_lsp_type")
 
@@ -551,50 +591,111 @@ def run(ctx: Ctx):
         ctx.check(vi < create[0] and vi < plug_call[0] and (plug_import is None or vi < plug_import[0]),
                   "validate-dominates", "main:validate-before-generate",
                   "jsonschema.validate does not precede create_lsp_model / plugin import / plugin call", P_MAIN, vst.lineno)
-        # every element reaching create_lsp_model is validated: in the function that validates, the validated name is
-        # what gets appended, in the same loop body, after validation; that list is what create_lsp_model receives
-        loops = [s_ for s_, _ in vctx if isinstance(s_, ast.For)]
-        validated = dotted(vcall.args[0]) if vcall.args else None
-        listname = None
-        appended_ok = False
-        if loops:
-            lp = loops[-1]
-            seen_validate = False
-            for st in lp.body:
-                for c in calls_in(st):
-                    if c is vcall:
-                        seen_validate = True
-                    if isinstance(c.func, ast.Attribute) and c.func.attr == "append" and len(c.args) == 1 \
-                            and dotted(c.args[0]) == validated:
-                        listname = dotted(c.func.value)
-                        appended_ok = seen_validate
-        flows = False
-        if listname:
-            arg = create[3].args[0] if create[3].args else None
-            argname = dotted(arg) if arg is not None else None
-            if create[4] is vfn:
-                flows = argname == listname
-            else:
-                # list returned by the validating helper and bound in the caller
-                returns = [r_ for r_ in ast.walk(vfn) if isinstance(r_, ast.Return)]
-                ret_ok = bool(returns) and all(dotted(r_.value) == listname for r_ in returns)
-                bound = False
-                for st in ast.walk(create[4]):
-                    if isinstance(st, (ast.Assign, ast.AnnAssign)) and isinstance(st.value, ast.Call) \
-                            and dotted(st.value.func) == vfn.name:
-                        tgt = st.targets[0] if isinstance(st, ast.Assign) else st.target
-                        bound = bound or dotted(tgt) == argname
-                flows = ret_ok and bound
-            other_adds = 0
-            for i_, st, c, fn in order:
-                for call in simple_calls(st):
-                    if isinstance(call.func, ast.Attribute) and call.func.attr in ("append", "extend", "insert") \
-                            and dotted(call.func.value) in (listname, argname) and not (fn is vfn and lp in [s_ for s_, _ in c]):
-                        other_adds += 1
-            appended_ok = appended_ok and other_adds == 0
-        ctx.check(appended_ok and flows, "validate-dominates", "main:every-model-validated",
-                  f"not every document handed to create_lsp_model is one that was just validated (list `{listname}`)",
-                  P_MAIN, vst.lineno)
+        # every document reaching create_lsp_model was validated: a small interprocedural "validated" dataflow over the
+        # functions of __main__.py.  A name is validated in f once `validate(name, ...)` ran on it (unconditionally, not in a
+        # try); f *returns a validated document* if every return is such a name (after the call) or a call to a function
+        # that does; a list is all-validated if it starts empty and only ever grows by append(<validated document>), or is
+        # a display / comprehension of validated documents, or comes from a function returning such a list.
+        def is_validate(c):
+            return (dotted(c.func) or "").endswith("jsonschema.validate") or dotted(c.func) == "validate"
+
+        def validated_at(f):
+            """{name: position of the validate statement} for unconditional validate calls of f"""
+            out = {}
+            for i_, st, c in statement_order(f):
+                if isinstance(st, (ast.For, ast.If, ast.Try, ast.With, ast.While)):
+                    continue
+                if any(isinstance(s_, (ast.If, ast.Try, ast.While)) for s_, _ in c):
+                    continue
+                for call in calls_in(st):
+                    if is_validate(call) and call.args and dotted(call.args[0]):
+                        out.setdefault(dotted(call.args[0]), i_)
+            return out
+
+        def rebinds_after(f, name, pos):
+            for i_, st, c in statement_order(f):
+                if i_ <= pos:
+                    continue
+                for n_ in ast.walk(st) if not isinstance(st, (ast.For, ast.If, ast.Try, ast.With, ast.While)) else []:
+                    if isinstance(n_, ast.Name) and n_.id == name and isinstance(n_.ctx, ast.Store):
+                        return True
+            return False
+
+        def elem_ok(e, f, pos, seen=()):
+            if isinstance(e, ast.Name):
+                va = validated_at(f)
+                return e.id in va and va[e.id] < pos and not rebinds_after(f, e.id, va[e.id])
+            if isinstance(e, ast.Call):
+                d = dotted(e.func)
+                return d in mm.functions and returns_doc(d, seen)
+            return False
+
+        def returns_doc(name, seen=()):
+            if name in seen:
+                return False
+            f = mm.functions[name]
+            rets = [(i_, st) for i_, st, c in statement_order(f) if isinstance(st, ast.Return)]
+            return bool(rets) and all(st.value is not None and elem_ok(st.value, f, i_, seen + (name,)) for i_, st in rets)
+
+        def list_ok(e, f, pos, seen=()):
+            if isinstance(e, ast.List):
+                return all(elem_ok(x, f, pos, seen) for x in e.elts)
+            if isinstance(e, ast.ListComp):
+                return elem_ok(e.elt, f, pos, seen)
+            if isinstance(e, ast.Call):
+                d = dotted(e.func)
+                if d in mm.functions:
+                    return returns_list(d, seen)
+                if d == "list" and len(e.args) == 1:
+                    return list_ok(e.args[0], f, pos, seen) or (isinstance(e.args[0], ast.GeneratorExp)
+                                                                and elem_ok(e.args[0].elt, f, pos, seen))
+                return False
+            if isinstance(e, ast.Name):
+                inits, grows_ok, other = [], True, False
+                for i_, st, c in statement_order(f):
+                    if isinstance(st, (ast.For, ast.If, ast.Try, ast.With, ast.While)):
+                        if isinstance(st, ast.For) and any(isinstance(t_, ast.Name) and t_.id == e.id for t_ in ast.walk(st.target)):
+                            other = True
+                        continue
+                    if isinstance(st, (ast.Assign, ast.AnnAssign)) and getattr(st, "value", None) is not None:
+                        tg = st.targets if isinstance(st, ast.Assign) else [st.target]
+                        if any(isinstance(t_, ast.Name) and t_.id == e.id for t_ in tg):
+                            inits.append((i_, st.value))
+                            continue
+                    if isinstance(st, ast.AugAssign) and isinstance(st.target, ast.Name) and st.target.id == e.id:
+                        grows_ok = grows_ok and isinstance(st.op, ast.Add) and list_ok(st.value, f, i_, seen)
+                        continue
+                    for call in calls_in(st):
+                        if isinstance(call.func, ast.Attribute) and isinstance(call.func.value, ast.Name) \
+                                and call.func.value.id == e.id:
+                            m = call.func.attr
+                            if m == "append" and len(call.args) == 1:
+                                grows_ok = grows_ok and elem_ok(call.args[0], f, i_, seen)
+                            elif m == "extend" and len(call.args) == 1:
+                                grows_ok = grows_ok and list_ok(call.args[0], f, i_, seen)
+                            elif m in ("insert", "__setitem__", "__iadd__"):
+                                grows_ok = False
+                if e.id in [a_.arg for a_ in f.args.args]:
+                    return False
+                return bool(inits) and not other and grows_ok and all(
+                    (isinstance(v, ast.List) and not v.elts) or (isinstance(v, ast.Call) and dotted(v.func) == "list" and not v.args)
+                    or list_ok(v, f, i_, seen) for i_, v in inits)
+            return False
+
+        def returns_list(name, seen=()):
+            if name in seen:
+                return False
+            f = mm.functions[name]
+            rets = [(i_, st) for i_, st, c in statement_order(f) if isinstance(st, ast.Return)]
+            return bool(rets) and all(st.value is not None and list_ok(st.value, f, i_, seen + (name,)) for i_, st in rets)
+
+        cfn = create[4]
+        cpos = next((i_ for i_, st, c in statement_order(cfn) if any(cl is create[3] for cl in calls_in(st))), 10 ** 9)
+        carg = create[3].args[0] if create[3].args else None
+        all_validated = carg is not None and list_ok(carg, cfn, cpos)
+        ctx.check(all_validated, "validate-dominates", "main:every-model-validated",
+                  f"not every document handed to create_lsp_model (`{ast.unparse(carg) if carg is not None else '?'}`) is one "
+                  "that was validated first", P_MAIN, vst.lineno)
         _schema_constrains_root(ctx, mm, order, vi, vcall, vfn)
         # no write before validation
         writes = []
